@@ -152,8 +152,12 @@ def applyPost (post : Dict (τ → τ)) : Dict τ → Option (Dict τ)
     | some f, some r => some ((k, f v) :: r)
     | _, _ => none
 
-/-- `Biclique.wiring` (network.py:804-827): for every neuron group `k`,
-`pre_output[k](combine({j: post_input[j](v_j)}))`. -/
+/-- `Biclique.wiring` (network.py:804-827): the post-input transforms are applied once
+(`transformed = {j: post_input[j](v_j)}`), then for every neuron group `k`
+`pre_output[k](combine(transformed))`.  The code calls `combine` once per group so that each group's
+transform gets its own tensor OBJECT; tensors are immutable values here, so that is the same value
+for every group — sharing of tensor objects (in-place user transforms) is checked on the real
+layers by the harness only. -/
 def Biclique.wiring (B : BicliqueCfg τ) (res : Dict τ) : Option (Dict τ) :=
   match applyPost B.post res with
   | none => none
